@@ -27,6 +27,9 @@ def jobs(tier):
             j = dict(j, directions="K", family=name + ":" + j["family"].split("/")[0],
                      families=["task", "resource", "constraint", "buffer"])
             out.append(j)
+    from . import alpha
+    for (lab, kind, p_) in alpha.interaction_programs(tier):
+        out.append({"program": p_, "directions": "K", "family": "interaction:" + kind, "families": ["task", "resource", "constraint", "buffer"]})
     for extra in ("C06", "C09", "C10"):
         try:
             mod = __import__(f"props.{extra}", fromlist=["x"])
